@@ -19,20 +19,24 @@ var (
 	kitOnce         sync.Once
 	kitSchemas      []*ast.Schema
 	kitModelSchemas []*ast.Schema
+	kitAltSchemas   []*ast.Schema
 )
 
 func kitLoad() {
 	kitOnce.Do(func() {
 		for j, sdl := range gen.ValidSchemas {
-			for k := 0; k < 2; k++ {
+			for k := 0; k < 3; k++ {
 				s, err := gqlparser.LoadSchema(&ast.Source{Name: "kit-schema.graphql", Input: sdl})
 				if err != nil {
 					panic("validation kit schema " + string(rune('0'+j)) + " does not load: " + err.Error())
 				}
-				if k == 0 {
+				switch k {
+				case 0:
 					kitSchemas = append(kitSchemas, s)
-				} else {
+				case 1:
 					kitModelSchemas = append(kitModelSchemas, s)
+				default:
+					kitAltSchemas = append(kitAltSchemas, s)
 				}
 			}
 		}
@@ -51,6 +55,13 @@ func kitSchema(i int) *ast.Schema {
 func kitModelSchema(i int) *ast.Schema {
 	kitLoad()
 	return kitModelSchemas[i]
+}
+
+// kitAltSchema: a third instance of the same text, for validating a document a second time
+// against "another schema" (a reloaded one): everything the walk records must then belong to it.
+func kitAltSchema(i int) *ast.Schema {
+	kitLoad()
+	return kitAltSchemas[i]
 }
 
 type kitDoc struct {
